@@ -1,70 +1,159 @@
-// The sensor needs several IPv4 addresses on one interface (the property is per source AND
-// destination).  The harness therefore re-executes itself in a private network namespace
-// (nothing outside the process is touched) and gives `lo` the addresses of Model.dst_ips.
+// The sensor should have several IPv4 addresses on one interface (the property is per source
+// AND destination).  The harness therefore tries to re-execute itself in a private network
+// namespace (nothing outside the process is touched) and to give `lo` the addresses of
+// Model.dst_ips.  If any step of that fails (no CAP_SYS_ADMIN, seccomp, no `ip` tool, ...) or
+// VERIF_C20_NO_NETNS=1 is set, it falls back to the single-address sensor of the current
+// namespace (127.0.0.1 on lo): every probe is then sent to destination 0, and the scenarios
+// that wanted several addresses are counted as multi-address-scenarios-skipped.
 package main
 
 import (
+	"fmt"
+	"io"
 	"net"
 	"os"
 	"os/exec"
+	"strings"
 	"syscall"
 
 	"verif/harness/hx"
 )
 
 // the sensor addresses, in the order of Model.dst_ips
-var sensorIPs = [][4]byte{{127, 0, 0, 1}, {127, 0, 0, 2}, {192, 0, 2, 9}}
+var allSensorIPs = [][4]byte{{127, 0, 0, 1}, {127, 0, 0, 2}, {192, 0, 2, 9}}
 
-// enterNetns: parent -> runs the same command line in a new network namespace and exits with
-// its status; child -> configures lo and returns.
-func enterNetns() {
-	if os.Getenv("C20_IN_NETNS") == "1" {
-		for _, c := range [][]string{
-			{"ip", "link", "set", "lo", "up"},
-			{"ip", "addr", "add", "127.0.0.2/8", "dev", "lo"},
-			{"ip", "addr", "add", "192.0.2.9/24", "dev", "lo"},
-		} {
-			if out, err := exec.Command(c[0], c[1:]...).CombinedOutput(); err != nil {
-				hx.Fatal("network namespace setup %v: %v %s", c, err, out)
-			}
-		}
-		checkAddrs()
-		return
-	}
-	cmd := exec.Command("/proc/self/exe", os.Args[1:]...)
-	cmd.Stdin, cmd.Stdout, cmd.Stderr = os.Stdin, os.Stdout, os.Stderr
-	cmd.Env = append(os.Environ(), "C20_IN_NETNS=1")
-	cmd.SysProcAttr = &syscall.SysProcAttr{Unshareflags: syscall.CLONE_NEWNET}
-	err := cmd.Run()
-	if err == nil {
-		os.Exit(0)
-	}
-	if ee, ok := err.(*exec.ExitError); ok {
-		os.Exit(ee.ExitCode())
-	}
-	hx.Fatal("cannot start in a private network namespace (needed for a sensor with several addresses): %v", err)
-}
+// sensorIPs: the addresses probes may be sent to (index = Probe.Dst); meIPs: every IPv4 address
+// lo really has (what isMe answers true for)
+var sensorIPs = allSensorIPs
+var meIPs [][4]byte
+var netnsNote = "netns: ok, lo carries 127.0.0.1 127.0.0.2 192.0.2.9"
 
-func checkAddrs() {
+const netnsSetupFailed = 77
+
+func loAddrs() ([][4]byte, error) {
 	intf, err := net.InterfaceByName("lo")
 	if err != nil {
-		hx.Fatal("lo: %v", err)
+		return nil, err
 	}
-	addrs, _ := intf.Addrs()
-	have := map[[4]byte]bool{}
+	addrs, err := intf.Addrs()
+	if err != nil {
+		return nil, err
+	}
+	var out [][4]byte
 	for _, a := range addrs {
 		if n, ok := a.(*net.IPNet); ok && n.IP.To4() != nil {
 			var k [4]byte
 			copy(k[:], n.IP.To4())
-			have[k] = true
+			out = append(out, k)
 		}
 	}
-	for _, s := range sensorIPs {
-		if !have[s] {
-			hx.Fatal("lo lacks the sensor address %v (has %v)", s, addrs)
+	return out, nil
+}
+
+func setupNamespace() error {
+	for _, c := range [][]string{
+		{"ip", "link", "set", "lo", "up"},
+		{"ip", "addr", "add", "127.0.0.2/8", "dev", "lo"},
+		{"ip", "addr", "add", "192.0.2.9/24", "dev", "lo"},
+	} {
+		if out, err := exec.Command(c[0], c[1:]...).CombinedOutput(); err != nil {
+			return fmt.Errorf("%s: %v %s", strings.Join(c, " "), err, strings.TrimSpace(string(out)))
 		}
 	}
-	if len(have) != len(sensorIPs) {
-		hx.Fatal("lo has unexpected IPv4 addresses: %v", addrs)
+	have, err := loAddrs()
+	if err != nil {
+		return err
 	}
+	set := map[[4]byte]bool{}
+	for _, a := range have {
+		set[a] = true
+	}
+	for _, s := range allSensorIPs {
+		if !set[s] {
+			return fmt.Errorf("lo lacks %v after the setup (has %v)", s, have)
+		}
+	}
+	if len(have) != len(allSensorIPs) {
+		return fmt.Errorf("lo has unexpected addresses %v", have)
+	}
+	return nil
+}
+
+// enterNetns: parent -> runs the same command line in a new network namespace and exits with
+// its status, or falls back; child -> configures lo and returns.
+func enterNetns() {
+	if os.Getenv("C20_IN_NETNS") == "1" {
+		if err := setupNamespace(); err != nil {
+			if f := os.NewFile(3, "reason"); f != nil {
+				fmt.Fprint(f, err.Error())
+				f.Close()
+			}
+			os.Exit(netnsSetupFailed)
+		}
+		meIPs = allSensorIPs
+		return
+	}
+	reason := ""
+	if os.Getenv("VERIF_C20_NO_NETNS") == "1" {
+		reason = "disabled by VERIF_C20_NO_NETNS=1"
+	} else {
+		pr, pw, err := os.Pipe()
+		if err != nil {
+			reason = "pipe: " + err.Error()
+		} else {
+			cmd := exec.Command("/proc/self/exe", os.Args[1:]...)
+			cmd.Stdin, cmd.Stdout, cmd.Stderr = os.Stdin, os.Stdout, os.Stderr
+			cmd.Env = append(os.Environ(), "C20_IN_NETNS=1")
+			cmd.ExtraFiles = []*os.File{pw}
+			cmd.SysProcAttr = &syscall.SysProcAttr{Unshareflags: syscall.CLONE_NEWNET}
+			err = cmd.Run()
+			pw.Close()
+			msg, _ := io.ReadAll(pr)
+			pr.Close()
+			switch ee, isExit := err.(*exec.ExitError); {
+			case err == nil:
+				os.Exit(0)
+			case isExit && ee.ExitCode() == netnsSetupFailed:
+				reason = "setup in the new namespace failed: " + string(msg)
+			case isExit:
+				os.Exit(ee.ExitCode()) // the harness itself ran (and failed) inside the namespace
+			default:
+				reason = "cannot start in a new network namespace: " + err.Error()
+			}
+		}
+	}
+	// fallback: the sensor of the current namespace
+	have, err := loAddrs()
+	if err != nil {
+		hx.Fatal("lo: %v", err)
+	}
+	ok := false
+	for _, a := range have {
+		if a == allSensorIPs[0] {
+			ok = true
+		}
+	}
+	if !ok {
+		hx.Fatal("lo has no 127.0.0.1 (has %v) and no private namespace is available (%s)", have, reason)
+	}
+	meIPs = have
+	sensorIPs = allSensorIPs[:1]
+	netnsNote = "netns-unavailable: " + reason
+	fmt.Fprintln(os.Stderr, "C20 harness: "+netnsNote+"; single-address sensor, multi-address scenarios restricted to one destination")
+}
+
+// oneDestination maps every probe to destination 0 when only one sensor address exists;
+// true = the scenario wanted several addresses
+func oneDestination(ps []Probe) bool {
+	if len(sensorIPs) > 1 {
+		return false
+	}
+	multi := false
+	for i := range ps {
+		if ps[i].Dst != 0 {
+			multi = true
+			ps[i].Dst = 0
+		}
+	}
+	return multi
 }
